@@ -48,7 +48,7 @@ struct Ghost {
   unsigned char dec;                      /* decision taken at the linearisation point of SlowUnlock */
   uint32_t w_at_unlock;
 } g;
-struct Mine { unsigned char hr, fl, ul, hw, mid, smid, lock, parked_first, parked_queue, queued_reader, enqueued; uint32_t rmid; Node* node; unsigned long idx; } me;
+struct Mine { unsigned char hr, fl, ul, hw, mid, smid, lock, parked_first, parked_queue, queued_reader, enqueued, link_cleared; uint32_t rmid; Node* node; unsigned long idx; } me;
 enum { DEC_NONE = 0, DEC_WRITER, DEC_READERS, DEC_READERS_W, DEC_PASS };
 unsigned g_runs; Node* g_must_run; unsigned char g_run_kind;    /* obligations to hand a granted node to its executor */
 #define BND (1u << 30)
@@ -98,14 +98,16 @@ static Node* node_next(Node* x) {
 }
 static void node_set_next(Node* x, Node* v) {
   if (x == WHEAD) {
-    if (g.qh == g.qt) { __CPROVER_assert(v == &wp[g.qt] && v == me.node && !me.enqueued, "writers queue: only the arriving node is linked behind the head"); g.qt++; me.enqueued = 1; }
+    if (g.qh == g.qt) { __CPROVER_assert(v == &wp[g.qt] && v == me.node && !me.enqueued, "writers queue: only the arriving node is linked behind the head");
+      __CPROVER_assert(me.link_cleared, "writers queue: the new tail's own link is null (RunWriter follows it)"); g.qt++; me.enqueued = 1; }
     else { __CPROVER_assert(v == (g.qh + 1 < g.qt ? &wp[g.qh + 1] : (Node*)0), "writers queue: the head is advanced to the successor of the first node"); g.qh++; }
     return;
   }
   __CPROVER_assert(__CPROVER_same_object(x, wp), "SHAPE: next write of a node outside the writers queue");
   unsigned long k = (unsigned long)(x - wp);
-  if (x == me.node && !me.enqueued) { __CPROVER_assert(v == 0, "writers queue: the arriving node's own link is only cleared before it is queued"); return; }
+  if (x == me.node && !me.enqueued) { __CPROVER_assert(v == 0, "writers queue: the arriving node's own link is only cleared before it is queued"); me.link_cleared = 1; return; }
   __CPROVER_assert(g.qh < g.qt && k == g.qt - 1 && v == &wp[g.qt] && v == me.node && !me.enqueued, "writers queue: the arriving node is linked behind the tail");
+  __CPROVER_assert(me.link_cleared, "writers queue: the new tail's own link is null (RunWriter follows it)");
   g.qt++; me.enqueued = 1;
 }
 #define NODE_NEXT(x) node_next(x)
@@ -336,7 +338,7 @@ def jobs(ctx):
                        loop_contracts=loops, expect=list(expect), meta={'fn': name, 'fifo': fifo}, timeout=900))
 
     START = 'POOL_INIT(); env(); __CPROVER_assume(INV_A); g_runs = 0; g_must_run = 0; g_run_kind = 0;'
-    NOTOK = 'me.enqueued == 0 && me.hr == 0 && me.fl == 0 && me.ul == 0 && me.hw == 0 && me.mid == 0 && me.smid == 0 && me.lock == 0 && me.parked_first == 0 && me.parked_queue == 0 && me.queued_reader == 0'
+    NOTOK = 'me.enqueued == 0 && me.link_cleared == 0 && me.hr == 0 && me.fl == 0 && me.ul == 0 && me.hw == 0 && me.mid == 0 && me.smid == 0 && me.lock == 0 && me.parked_first == 0 && me.parked_queue == 0 && me.queued_reader == 0'
     FRAME = '__CPROVER_assigns(M, g, me, g_runs, g_must_run, g_run_kind)'
     for fifo in (0, 1):
         # ---- TryLockSharedAwait ------------------------------------------------------------------------------------------------------------
@@ -424,41 +426,56 @@ void harness(void) { ''' + START + ''' __CPROVER_assume(g.hr - g.latent >= 1); m
         # ---- UnlockHere -----------------------------------------------------------------------------------------------------------------------------------
         r_ = role(state='__CPROVER_assert(kind == RG_CAS && o == kWriter && n == 0, "C15: the fast release is only taken when nobody else is registered"); tr_writer_release_fast(o);')
         src = head(fifo, r_) + '''unsigned g_slow;
-void SlowUnlock(void) __CPROVER_requires(me.hw == 1 && me.lock == 0 && g_slow == 0 && INV_A) __CPROVER_assigns(g_slow, me.hw) __CPROVER_ensures(g_slow == 1 && me.hw == 0);
+void SlowUnlock(void) __CPROVER_requires(INV_A && me.hw == 1 && me.hr == 0 && me.fl == 0 && me.ul == 0 && me.mid == 0 && me.smid == 0 && me.lock == 0 && g_runs == 0 && g.latent < BND && g.local == 0 && g_slow == 0)
+  __CPROVER_assigns(M, g, me, g_runs, g_must_run, g_slow) __CPROVER_ensures(g_slow == 1 && me.hw == 0 && me.lock == 0 && INV_A && g.dec == DEC_NONE);
 void UnlockHere(void)
-__CPROVER_requires(INV_A && me.hw == 1 && me.hr == 0 && me.fl == 0 && me.ul == 0 && me.mid == 0 && me.smid == 0 && me.lock == 0 && g_slow == 0)
-__CPROVER_assigns(M, g, me, g_slow)
-/* releases exactly its own exclusive hold: directly when nobody else is registered (word == one writer), otherwise through SlowUnlock */
-__CPROVER_ensures(me.hw == 0 && (g_slow == 0 ==> INV_A))
+__CPROVER_requires(INV_A && me.hw == 1 && me.hr == 0 && me.fl == 0 && me.ul == 0 && me.mid == 0 && me.smid == 0 && me.lock == 0 && g_slow == 0 && g_runs == 0 && g.local == 0 && g.latent < BND)
+__CPROVER_assigns(M, g, me, g_slow, g_runs, g_must_run)
+/* releases exactly its own exclusive hold: directly when nobody else is registered (word == one writer), otherwise through SlowUnlock; the invariant holds again either way */
+__CPROVER_ensures(me.hw == 0 && me.lock == 0 && INV_A)
 {''' + conv('UnlockHere') + '''}
 void harness(void) { ''' + START + ''' __CPROVER_assume(g.hw == 1); me.hw = 1; g_slow = 0; UnlockHere(); if (g_slow) VF_CANARY("slow"); else VF_CANARY("fast"); }
 '''
         add('UnlockHere', fifo, ['UnlockHere'], src, 'UnlockHere', replace=['SlowUnlock'], canaries=2)
-        # ---- SlowUnlock (decision) with RunWriter / RunReaders / PassReaders as contracts -------------------------------------------------------------------
-        r_s1 = role(state='__CPROVER_assert(kind == RG_SUB && n == o - kWriter, "C15: a writer releases exactly one unit"); tr_writer_release_slow(o);')
-        CALLEES = '''unsigned g_rw_calls, g_rr_calls, g_pr_calls; uint64_t g_arg;
-void RunWriter(void) __CPROVER_requires(me.lock && g.dec == DEC_WRITER && g_rw_calls == 0) __CPROVER_assigns(g_rw_calls, me.lock, g.dec) __CPROVER_ensures(g_rw_calls == 1 && me.lock == 0 && g.dec == DEC_NONE);
-void RunReaders(uint64_t s) __CPROVER_requires(me.lock && (g.dec == DEC_READERS || g.dec == DEC_READERS_W) && g_rr_calls == 0 && (uint32_t)(s >> 32) == g.w_at_unlock) __CPROVER_assigns(g_rr_calls, me.lock, g.dec, g_arg)
-  __CPROVER_ensures(g_rr_calls == 1 && me.lock == 0 && g.dec == DEC_NONE && g_arg == s);
-void PassReaders(uint64_t s) __CPROVER_requires(me.lock && g.dec == DEC_PASS && g_pr_calls == 0 && (uint32_t)(s >> 32) == 1) __CPROVER_assigns(g_pr_calls, M._readers_pass)
-  __CPROVER_ensures(g_pr_calls == 1 && M._readers_pass == g.pass);
-'''
-        src = head(fifo, r_s1.replace('static void commit(void) {  }', 'static void commit(void) { if (g.dec == DEC_PASS) g.dec = DEC_NONE; }')) + CALLEES + '''void SlowUnlock(void)
-__CPROVER_requires(INV_A && me.hw == 1 && me.hr == 0 && me.fl == 0 && me.ul == 0 && me.mid == 0 && me.smid == 0 && me.lock == 0 && g_rw_calls == 0 && g_rr_calls == 0 && g_pr_calls == 0)
-__CPROVER_assigns(M, g, me, g_rw_calls, g_rr_calls, g_pr_calls, g_arg)
+        # ---- SlowUnlock (decision) with RunWriter / RunReaders / PassReaders under the SAME contracts that their own jobs enforce ---------------------------------------
+        QUEUE = 'g.qh <= g.qt && g.qt < WP_MAX'
+        RW_REQ = ('me.lock && g.dec == DEC_WRITER && INV_A && g.hw == 1 && g_runs == 0 && g.mid == 0 && g.fpend == 0 && g.smid == 0 && me.smid == 0 && me.hw == 0\n'
+                  '   && M._readers_size == g.rs && M._readers_pass == g.pass && g.rl == g.rs && g.local == 0 && M._writers_prio == g.prio + (FIFO ? 1 : 0) && g.qh < g.qt && g.qt < WP_MAX && g.qt - g.qh == g.wq + 1\n'
+                  '   && M._writers_tail == &wp[g.qt - 1] && g_must_run == &wp[g.qh]')
+        RW_ENS = 'g_runs == 1 && me.lock == 0 && INV_A && g.dec == DEC_NONE && me.hw == 0'
+        RR_REQ = ('me.lock && (g.dec == DEC_READERS || g.dec == DEC_READERS_W) && INV_A && g.hw == 0 && (uint32_t)(s >> 32) == g.w_at_unlock && g_runs == 0 && g.latent < BND && g_lat0 < BND && g_n0 < BND\n'
+                  '   && g.mid == 0 && g.fpend == 0 && g.smid == me.smid && me.hw == 0\n'
+                  '   && (g.dec == DEC_READERS_W ? (me.smid && g.smid && g.w_at_unlock == g.wq + 1 && g.w_at_unlock != 1 && M._readers_size == g.rs && M._readers_pass == g.pass && g.rl == g.rs && g_n0 == g.rs && g_lat0 == g.latent && M._writers_prio == g.prio)\n'
+                  '        : (g.w_at_unlock == 1 && !me.smid && M._readers_size == g_n0 && g.rl == g_n0 && g_n0 >= 1 && g.rs == 0 && g.latent == g_lat0 + g_n0 && g.latent <= g.hr && (uint32_t)s >= g_n0 && (uint32_t)s < BND\n'
+                  '           && M._readers_pass < BND && g.pass == M._readers_pass + ((uint32_t)s - g_n0) && M._writers_prio == g.prio))\n'
+                  '   && g.local == 0 && ' + QUEUE + ' && g.qt - g.qh == g.wq && M._writers_tail == (g.qh < g.qt ? &wp[g.qt - 1] : WHEAD)')
+        RR_ENS = 'g_runs == g_n0 && g.latent == g_lat0 && me.lock == 0 && INV_A && g.local == 0 && g.dec == DEC_NONE && me.hw == 0 && me.smid == 0'
+        PR_REQ = 'me.lock && (g.dec == DEC_PASS || g.dec == DEC_READERS) && (uint32_t)(s >> 32) == 1 && M._readers_size < BND && M._readers_pass < BND && (uint32_t)s >= M._readers_size && (uint32_t)s < BND'
+        PR_ENS = 'M._readers_pass == OLD(M._readers_pass) + ((uint32_t)s - M._readers_size)'
+        GH = 'uint32_t g_n0, g_lat0;\n'
+        S1 = ('__CPROVER_assert(kind == RG_SUB && n == o - kWriter, "C15: a writer releases exactly one unit"); g_n0 = g.rs; g_lat0 = g.latent; tr_writer_release_slow(o); '
+              'if (g.dec == DEC_WRITER) g_must_run = &wp[g.qh];')
+        r_s1 = role(state=S1, commit='if (g.dec == DEC_PASS) g.dec = DEC_NONE;')
+        src = head(fifo, GH + r_s1) + '''void RunWriter(void) __CPROVER_requires(''' + RW_REQ + ''') __CPROVER_assigns(M, g, me, g_runs) __CPROVER_ensures(''' + RW_ENS + ''');
+void RunReaders(uint64_t s) __CPROVER_requires(''' + RR_REQ + ''') __CPROVER_assigns(M, g, me, g_runs) __CPROVER_ensures(''' + RR_ENS + ''');
+void PassReaders(uint64_t s) __CPROVER_requires(''' + PR_REQ + ''') __CPROVER_assigns(M._readers_pass) __CPROVER_ensures(''' + PR_ENS + ''');
+void SlowUnlock(void)
+__CPROVER_requires(INV_A && me.hw == 1 && me.hr == 0 && me.fl == 0 && me.ul == 0 && me.mid == 0 && me.smid == 0 && me.lock == 0 && g_runs == 0 && g.latent < BND && g.local == 0)
+__CPROVER_assigns(M, g, me, g_runs, g_must_run, g_n0, g_lat0)
 /* under the spinlock the writer gives up its unit and takes exactly one of: next writer (FIFO: a writer that queued before every queued reader; otherwise only when no reader is queued), all queued readers,
-   or nothing but pass credits for the readers registered meanwhile - the decision of the code must be the decision the property prescribes (g.dec, computed from the logical state at the release) */
-__CPROVER_ensures(me.hw == 0 && me.lock == 0 && g_rw_calls + g_rr_calls + g_pr_calls == 1 && g.dec == DEC_NONE)
+   or nothing but pass credits for the readers registered meanwhile - the decision of the code must be the decision the property prescribes (g.dec, computed from the logical state at the release);
+   whoever is granted is submitted exactly once (next writer: 1, readers: all that were queued), after the spinlock was dropped, and the invariant holds again */
+__CPROVER_ensures(me.hw == 0 && me.lock == 0 && INV_A && g.dec == DEC_NONE)
 {''' + conv('SlowUnlock') + '''}
-void harness(void) { ''' + START + ''' __CPROVER_assume(g.hw == 1); me.hw = 1; g_rw_calls = g_rr_calls = g_pr_calls = 0; SlowUnlock(); if (g_rw_calls) VF_CANARY("next writer"); else if (g_rr_calls) VF_CANARY("readers"); else VF_CANARY("credits only"); }
+void harness(void) { ''' + START + ''' __CPROVER_assume(g.hw == 1 && g.latent < BND); me.hw = 1; SlowUnlock(); if (g.hw) VF_CANARY("next writer"); else if (g_runs) VF_CANARY("readers"); else VF_CANARY("credits only"); }
 '''
         add('SlowUnlock', fifo, ['SlowUnlock'], src, 'SlowUnlock', replace=['RunWriter', 'RunReaders', 'PassReaders'], canaries=3)
         # ---- PassReaders -----------------------------------------------------------------------------------------------------------------------------------------
         src = head(fifo, role()) + '''void PassReaders(uint64_t s)
-__CPROVER_requires(me.lock && (g.dec == DEC_PASS || g.dec == DEC_READERS) && (uint32_t)(s >> 32) == 1 && M._readers_size < BND && M._readers_pass < BND && (uint32_t)s >= M._readers_size && (uint32_t)s < BND)
+__CPROVER_requires(''' + PR_REQ + ''')
 __CPROVER_assigns(M._readers_pass)
 /* every reader registered in the word that is not in the queue gets exactly one pass credit */
-__CPROVER_ensures(M._readers_pass == OLD(M._readers_pass) + ((uint32_t)s - M._readers_size))
+__CPROVER_ensures(''' + PR_ENS + ''')
 {''' + conv('PassReaders') + '''}
 void harness(void) { uint64_t s; me.lock = 1; PassReaders(s); VF_CANARY("end"); }
 '''
@@ -466,14 +483,12 @@ void harness(void) { uint64_t s; me.lock = 1; PassReaders(s); VF_CANARY("end"); 
         # ---- RunWriter --------------------------------------------------------------------------------------------------------------------------------------------------
         RUNW = '''void Run(Node* node) __CPROVER_requires(node != 0 && node == g_must_run && g_runs == 0 && me.lock == 0) __CPROVER_assigns(g_runs) __CPROVER_ensures(g_runs == 1);
 '''
-        src = head(fifo, role(commit='g.dec = DEC_NONE;')) + RUNW + '''void RunWriter(void)
+        src = head(fifo, GH + role(commit='g.dec = DEC_NONE;')) + RUNW + '''void RunWriter(void)
 /* state right after the linearisation point of SlowUnlock with decision "next writer": logical counters already updated, concrete queue / priority not yet */
-__CPROVER_requires(me.lock && g.dec == DEC_WRITER && INV_A && g.hw == 1 && g_runs == 0 && g.mid == 0 && g.fpend == 0 && g.smid == 0)
-__CPROVER_requires(M._readers_size == g.rs && M._readers_pass == g.pass && g.rl == g.rs && g.local == 0 && M._writers_prio == g.prio + (FIFO ? 1 : 0) && g.qh < g.qt && g.qt < WP_MAX && g.qt - g.qh == g.wq + 1
-   && M._writers_tail == &wp[g.qt - 1] && g_must_run == &wp[g.qh])
+__CPROVER_requires(''' + RW_REQ + ''')
 __CPROVER_assigns(M, g, me, g_runs)
 /* exactly the first queued writer is unlinked (the queue stays well formed), the spinlock is released first, then that writer is submitted exactly once */
-__CPROVER_ensures(g_runs == 1 && me.lock == 0 && INV_A)
+__CPROVER_ensures(''' + RW_ENS + ''')
 {''' + conv('RunWriter') + '''}
 void harness(void) { ''' + START + ''' __CPROVER_assume(g.hw == 1); me.lock = 1; g.dec = DEC_WRITER; g_must_run = &wp[g.qh]; RunWriter(); VF_CANARY("end"); }
 '''
@@ -483,25 +498,20 @@ void harness(void) { ''' + START + ''' __CPROVER_assume(g.hw == 1); me.lock = 1;
         c = conv('RunReaders')
         inv = '__CPROVER_assigns(g.local, g.latent, g_runs)\n__CPROVER_loop_invariant(g.local >= 1 && g.local <= g_n0 && g_runs <= g_n0 && g.local + g_runs == g_n0 && g.latent == g_lat0 + g.local && me.lock == 0)'
         c = attach_loop_contracts('RunReaders', c, [inv])
-        src = head(fifo, r_) + '''uint32_t g_n0, g_lat0;
-Node* READERS_POP(void);
+        src = head(fifo, GH + r_) + '''Node* READERS_POP(void);
 static int READERS_LOCAL_EMPTY(void) { return g.local == 0; }
 void RunR(Node* node) __CPROVER_requires(node != 0 && g.local >= 1 && g.latent >= 1 && me.lock == 0) __CPROVER_assigns(g.local, g.latent, g_runs) __CPROVER_ensures(g.local == OLD(g.local) - 1 && g.latent == OLD(g.latent) - 1 && g_runs == OLD(g_runs) + 1);
 Node g_some_reader;
 Node* READERS_POP(void) { __CPROVER_assert(g.local >= 1, "readers list: PopFront of a non-empty list"); return &g_some_reader; }
 #define Run(n) RunR(n)
-void PassReaders(uint64_t s) __CPROVER_requires(me.lock && g.dec == DEC_READERS && (uint32_t)(s >> 32) == 1) __CPROVER_assigns(M._readers_pass) __CPROVER_ensures(M._readers_pass == OLD(M._readers_pass) + ((uint32_t)s - M._readers_size));
+void PassReaders(uint64_t s) __CPROVER_requires(''' + PR_REQ + ''') __CPROVER_assigns(M._readers_pass) __CPROVER_ensures(''' + PR_ENS + ''');
 void RunReaders(uint64_t s)
 /* state right after the linearisation point of SlowUnlock with decision "readers": `s` is the word the release saw */
-__CPROVER_requires(me.lock && (g.dec == DEC_READERS || g.dec == DEC_READERS_W) && INV_A && g.hw == 0 && (uint32_t)(s >> 32) == g.w_at_unlock && g_runs == 0 && g.latent < BND && g_lat0 < BND && g_n0 < BND && g.mid == 0 && g.fpend == 0 && g.smid == me.smid)
-__CPROVER_requires(g.dec == DEC_READERS_W ? (me.smid && g.smid && g.w_at_unlock == g.wq + 1 && g.w_at_unlock != 1 && M._readers_size == g.rs && M._readers_pass == g.pass && g.rl == g.rs && g_n0 == g.rs && g_lat0 == g.latent && M._writers_prio == g.prio)
-                                  : (g.w_at_unlock == 1 && !me.smid && M._readers_size == g_n0 && g.rl == g_n0 && g_n0 >= 1 && g.rs == 0 && g.latent == g_lat0 + g_n0 && g.latent <= g.hr && (uint32_t)s >= g_n0 && (uint32_t)s < BND
-                                     && g.pass == M._readers_pass + ((uint32_t)s - g_n0) && M._writers_prio == g.prio))
-__CPROVER_requires(g.local == 0 && g.qh <= g.qt && g.qt < WP_MAX && g.qt - g.qh == g.wq && M._writers_tail == (g.qh < g.qt ? &wp[g.qt - 1] : WHEAD))
+__CPROVER_requires(''' + RR_REQ + ''')
 __CPROVER_assigns(M, g, me, g_runs)
 /* all queued readers (and only they) are released: each is submitted exactly once after the spinlock was dropped; if other writers wait, the next one becomes the first writer and waits for exactly these readers
    (FIFO: the remaining queued writers keep priority over readers arriving later); otherwise the readers registered meanwhile get their credits */
-__CPROVER_ensures(g_runs == g_n0 && g.latent == g_lat0 && me.lock == 0 && INV_A && g.local == 0)
+__CPROVER_ensures(''' + RR_ENS + ''')
 {''' + c + '''}
 void harness(void) { ''' + START + ''' __CPROVER_assume(g.hw == 0); me.lock = 1; uint64_t s; g.dec = nondet_bool() ? DEC_READERS : DEC_READERS_W; if (g.dec == DEC_READERS_W) me.smid = 1; RunReaders(s);
   if (g.w_at_unlock == 1) VF_CANARY("last writer"); else VF_CANARY("next first writer"); }
@@ -537,3 +547,9 @@ void harness(void) { g_submits = 0; Node* n; Run(n); VF_CANARY("end"); }
 '''
         out.append(Job('shared_mutex/lemma.init.fifo%d' % fifo, props, src, 'lemma_init', enforce=None, replace=[], funcs=[], kind='lemma', expect=[r'postcondition of the constructor'], meta={'fn': 'member initialisers'}))
     return out
+
+
+def replay(ctx, res, failed, rec):
+    """the real SharedMutex of the tree under check (CORO build): reader / writer stress with overlap counters and a lost-wake-up watchdog"""
+    from vf.replay import run_coro_driver
+    return run_coro_driver(ctx, 'shared_mutex.cpp', [3000], timeout=150)
